@@ -41,17 +41,19 @@ fi
 if [ $rc -ne 0 ]; then echo "BUILD FAILED, see $LOG" >&2; tail -30 "$LOG" >&2; exit 2; fi
 # harnesses (C) linked against the static internal library of that build
 HERE=$(cd "$(dirname "$0")/.." && pwd)
-mkdir -p "$S/harness"
+# (one harness directory per checkout of this framework: two versions sharing the build cache must not clobber each other's binaries)
+HD="$S/harness-$(printf %s "$HERE" | md5sum | cut -c1-8)"
+mkdir -p "$HD"
 for h in "$HERE"/harness/c/*.c; do
   b=$(basename "$h" .c)
   if [ "$b" = svcstub ] || [ "$b" = argdump ]; then
     # stand-alone (started by the daemon as a service program): no sanitizer, no dbus
-    if [ ! -x "$S/harness/$b" ] || [ "$h" -nt "$S/harness/$b" ]; then
-      gcc -O1 -o "$S/harness/$b" "$h" >>"$LOG" 2>&1 || { echo "HARNESS BUILD FAILED ($b), see $LOG" >&2; exit 2; }
+    if [ ! -x "$HD/$b" ] || [ "$h" -nt "$HD/$b" ]; then
+      gcc -O1 -o "$HD/$b" "$h" >>"$LOG" 2>&1 || { echo "HARNESS BUILD FAILED ($b), see $LOG" >&2; exit 2; }
     fi
     continue
   fi
-  if [ ! -x "$S/harness/$b" ] || [ "$h" -nt "$S/harness/$b" ] || [ "$S/build/lib/libdbus-internal.a" -nt "$S/harness/$b" ] || [ "$S/build/lib/libdbus-daemon-internal.a" -nt "$S/harness/$b" ]; then
+  if [ ! -x "$HD/$b" ] || [ "$h" -nt "$HD/$b" ] || [ "$S/build/lib/libdbus-internal.a" -nt "$HD/$b" ] || [ "$S/build/lib/libdbus-daemon-internal.a" -nt "$HD/$b" ]; then
     LIBS="$S/build/lib/libdbus-internal.a -L$S/build/lib -ldbus-1 -Wl,-rpath,$S/build/lib"
     case "$b" in connthr) LIBS="-L$S/build/lib -ldbus-1 -Wl,-rpath,$S/build/lib";; esac
     case "$b" in connraw) LIBS="$S/build/lib/libdbus-testutils.a $S/build/lib/libdbus-internal.a -L$S/build/lib -ldbus-1 -Wl,-rpath,$S/build/lib";; esac
@@ -59,10 +61,10 @@ for h in "$HERE"/harness/c/*.c; do
     case "$b" in bus*) LIBS="$S/build/lib/libdbus-daemon-internal.a $S/build/lib/libdbus-testutils.a $S/build/lib/libdbus-internal.a -L$S/build/lib -ldbus-1 -Wl,-rpath,$S/build/lib -lexpat";; esac
     gcc -fsanitize=address,undefined -fno-sanitize-recover=undefined -fno-omit-frame-pointer -O1 -g -Wno-deprecated-declarations \
       -DDBUS_COMPILATION -DHAVE_CONFIG_H -I"$S/build" -I"$S/src" -I"$S/src/bus" -I"$S/src/test" \
-      -o "$S/harness/$b" "$h" $LIBS -lpthread -lsystemd >>"$LOG" 2>&1 || \
+      -o "$HD/$b" "$h" $LIBS -lpthread -lsystemd >>"$LOG" 2>&1 || \
     gcc -fsanitize=address,undefined -fno-sanitize-recover=undefined -fno-omit-frame-pointer -O1 -g -Wno-deprecated-declarations \
       -DDBUS_COMPILATION -DHAVE_CONFIG_H -I"$S/build" -I"$S/src" -I"$S/src/bus" -I"$S/src/test" \
-      -o "$S/harness/$b" "$h" $LIBS -lpthread >>"$LOG" 2>&1 || { echo "HARNESS BUILD FAILED ($b), see $LOG" >&2; tail -30 "$LOG" >&2; exit 2; }
+      -o "$HD/$b" "$h" $LIBS -lpthread >>"$LOG" 2>&1 || { echo "HARNESS BUILD FAILED ($b), see $LOG" >&2; tail -30 "$LOG" >&2; exit 2; }
   fi
 done
 echo "$S/build"
